@@ -25,7 +25,6 @@ def mc_configs(ctx):
                 ("one-open-autoX-openfail", nu.mc_consts(auto=("X",), mo=1, mcl=0, fail=1)),
                 ("pending-validation-2cuts-2reconnects", nu.mc_consts(mo=1, moy=0, mcl=0, cut=2, rec=2)),
                 ("retry-after-failure", nu.mc_consts(mo=2, moy=0, mcl=0)),
-                ("open-failure-then-reopen", nu.mc_consts(mo=2, moy=1, mcl=0, fail=1)),
                 ("foreign-dial-failure", nu.mc_consts(mo=1, mcl=0, fdf=1)),
                 ("foreign-dial-failure-cut-reconnect", nu.mc_consts(mo=1, moy=0, mcl=0, cut=1, rec=1, fdf=1)),
                 ("retry-after-failure-repaired", nu.mc_consts(mo=2, moy=0, mcl=0, fixed=set(nu.SIG_TAG.values()))),
@@ -177,6 +176,28 @@ def late_accept(peer_log, me):
     return False
 
 
+FAILED_ID_REUSED = "open-reuses-failed-pending-substream-id"
+
+
+def failed_id_reused(my_log, peer_log, me, peer):
+    """history of the recorded finding: my open was answered by an OpenFailure while the peer's concurrent open
+    (issued between my open and that failure) was still unanswered for a good while after it (so the failure was my own
+    substream failing to open with the peer's substream under negotiation), and my next open got nothing at all"""
+    mine = [d for d in my_log if d.get("p") == peer and (d["e"] == "open" and d.get("r") == "ok" or d["e"] == "ev" and d.get("k") in ("openfail", "opened"))]
+    if len(mine) < 3 or mine[-1]["e"] != "open" or mine[-2].get("k") != "openfail" or mine[-3]["e"] != "open":
+        return False
+    if any(d["e"] == "conn" and d.get("k") in ("cut", "down") and d.get("p") == peer for d in my_log):
+        return False
+    t_open, t_fail = mine[-3]["t"], mine[-2]["t"]
+    theirs = [d for d in peer_log if d.get("p") == me]
+    for i, d in enumerate(theirs):
+        if d["e"] == "open" and d.get("r") == "ok" and t_open <= d["t"] <= t_fail:
+            ans = [x for x in theirs[i + 1:] if x["e"] == "ev" and x.get("k") in ("openfail", "opened")]
+            if not ans or ans[0]["t"] > t_fail + 500:
+                return True
+    return False
+
+
 def collect(ctx, rejects, prop="C11", lines=None):
     violations = []
     logs = {}
@@ -201,6 +222,9 @@ def collect(ctx, rejects, prop="C11", lines=None):
             for (sc, ep), pseg in logs.items():
                 if sc == hdr.get("sc") and ep != hdr.get("ep") and late_accept([json.loads(x) for x in pseg[1:]], hdr.get("ep")):
                     sig = LATE_ACCEPT
+                elif sc == hdr.get("sc") and ep != hdr.get("ep") and \
+                        failed_id_reused([json.loads(x) for x in seg[1:idx - 1]], [json.loads(x) for x in pseg[1:]], hdr.get("ep"), ep):
+                    sig = FAILED_ID_REUSED
         violations.append({"sig": sig, "what": "%s at endpoint %s of scenario %s: %s" % (r.reason, hdr.get("ep"), hdr.get("sc"), seg[idx - 1][:300]),
                            "replay_obj": {"property": prop, "reason": r.reason, "signature": sig, "scenario": hdr.get("sc"),
                                           "script": getattr(ctx, "scripts_by_id", {}).get(hdr.get("sc")),
